@@ -165,7 +165,9 @@ class Dnf(walkers.dag.DagWalker):
             big_conjunction = [lit for conj in conj_list for lit in conj]
             simp = self._simplifier.simplify(self.manager.And(big_conjunction))
             if simp.is_true():
-                return []
+                # one of the disjuncts is TRUE, so the whole disjunction is TRUE:
+                # a single empty conjunction ([] would be the empty disjunction, FALSE)
+                return [[]]
             elif simp.is_false():
                 pass
             elif simp.is_and():
